@@ -5,6 +5,7 @@ package main
 
 import (
 	"fmt"
+	"go/token"
 
 	"golang.org/x/tools/go/ssa"
 )
@@ -12,6 +13,23 @@ import (
 func init() {
 	register(&Rule{ID: "R-SELF", Doc: "the parse-time snapshot field `self` of partialDoc / partialArray is never read back as a value (returned, copied, inserted): the empty reference token must denote the container as it is now, after the earlier operations of the patch; the library may store the field, but every way of handing out `the document itself` builds a node over the live container",
 		Run: ruleSelf, Min: map[string]int{"v5": 2}})
+}
+
+// underEmptyStringTest: bb is reached only through the true edge of `x == ""`.
+func underEmptyStringTest(bb *ssa.BasicBlock) bool {
+	for _, f := range dominatingFacts(bb) {
+		bo, ok := f.V.(*ssa.BinOp)
+		if !ok {
+			continue
+		}
+		if s, isS := strConst(bo.Y); !isS || s != "" {
+			continue
+		}
+		if (bo.Op == token.EQL && f.True) || (bo.Op == token.NEQ && !f.True) {
+			return true
+		}
+	}
+	return false
 }
 
 func ruleSelf(c *Ctx) {
@@ -78,52 +96,213 @@ func ruleSelf(c *Ctx) {
 		}
 		return false, 0
 	}
+	// (G1) get hands out members / elements only. The reference token "" is the
+	// member with the empty name; "the container itself" has its own accessor.
+	// (Conflating the two let `move from "/"` insert a container into itself.)
+	var memberRead func(v ssa.Value, depth int) (bool, string)
+	memberRead = func(v ssa.Value, depth int) (bool, string) {
+		if depth > 4 {
+			return false, "too deep"
+		}
+		baseField := func(x ssa.Value, want string) bool {
+			bs, fr, ok := fieldLoad(x)
+			if !ok || fr.Field != want {
+				return false
+			}
+			n := derefNamed(bs.Type())
+			return n != nil && (n.Obj().Name() == "partialDoc" || n.Obj().Name() == "partialArray")
+		}
+		switch x := v.(type) {
+		case *ssa.Const:
+			if x.Value == nil {
+				return true, ""
+			}
+		case *ssa.Phi:
+			for _, e := range x.Edges {
+				if ok, why := memberRead(e, depth+1); !ok {
+					return false, why
+				}
+			}
+			return true, ""
+		case *ssa.Extract:
+			if lk, ok := x.Tuple.(*ssa.Lookup); ok && x.Index == 0 && baseField(lk.X, "obj") {
+				return true, ""
+			}
+		case *ssa.Lookup:
+			if baseField(x.X, "obj") {
+				return true, ""
+			}
+		case *ssa.UnOp:
+			if ia, ok := x.X.(*ssa.IndexAddr); ok && baseField(ia.X, "nodes") {
+				return true, ""
+			}
+		}
+		return false, describeValue(v)
+	}
 	for _, tn := range []string{"partialDoc", "partialArray"} {
 		get := b.method(b.Lib, tn, "get")
-		key := fmt.Sprintf("(*%s).get: the empty key yields the live container, not the parse-time snapshot", tn)
+		key := fmt.Sprintf("(*%s).get: every value handed out is a member of the container, never the container itself or its snapshot", tn)
 		if get == nil {
 			l.add("R-SELF", "v5", key, "", Undecided, "method not found", false)
 			continue
 		}
-		// the return on the key == "" edge
 		bad := ""
-		found := false
-		for _, bb := range get.Blocks {
-			iff, ok := bb.Instrs[len(bb.Instrs)-1].(*ssa.If)
-			if !ok {
-				continue
+		n := 0
+		for _, r := range liveReturns(get) {
+			n++
+			if ok, why := memberRead(retVal(r, 0), 0); !ok {
+				bad = fmt.Sprintf("the return at %s hands out %s: the reference token \"\" (path \"/\") then denotes the container, and `move from \"/\"` can insert a container into itself (unbounded recursion when the result is written)", b.posOf(r), why)
 			}
-			bo, ok := iff.Cond.(*ssa.BinOp)
-			if !ok {
-				continue
-			}
-			if s, isS := strConst(bo.Y); !isS || s != "" {
-				continue
-			}
-			for _, r := range liveReturns(get) {
-				if !edgeDominates(bb, 0, r.Block()) {
-					continue
-				}
-				found = true
-				v := retVal(r, 0)
-				if _, fr, ok := fieldLoad(v); ok && fr.Field == "self" {
-					bad = "returns the snapshot field self at " + b.posOf(r) + ": after an earlier operation changed the document, `copy` from \"\" duplicates the original input instead of the current document"
-					continue
-				}
-				ok, n := builtOver(v, get.Params[0], 0)
-				if !ok || n == 0 {
-					bad = "the value returned for the empty key at " + b.posOf(r) + " is not a node built over the receiver (the live container)"
-				}
-			}
-		}
-		if !found && bad == "" {
-			bad = "no return on the key == \"\" edge"
 		}
 		if bad != "" {
 			l.add("R-SELF", "v5", key, b.rel(get.Pos()), Violated, bad, true)
 		} else {
-			l.add("R-SELF", "v5", key, b.rel(get.Pos()), Discharged, "the empty key returns nil or a fresh node whose doc/ary field is the receiver itself", true)
+			l.add("R-SELF", "v5", key, b.rel(get.Pos()), Discharged, fmt.Sprintf("%d return(s): nil, a lookup in obj, or an element of nodes", n), true)
 		}
+	}
+	// (G2) accessors for "the container itself" build a node over the live
+	// container; (G3) such a node is only ever deep-copied or compared, never
+	// inserted (it would alias the container, or make the document cyclic).
+	var liveCtors []*ssa.Function
+	for _, fn := range b.srcFuncs(b.Lib) {
+		if fn.Signature.Recv() == nil || len(fn.Params) != 1 || fn.Signature.Results().Len() != 1 || !isPtrToNamed(fn.Signature.Results().At(0).Type(), "lazyNode") {
+			continue
+		}
+		rn := derefNamed(fn.Params[0].Type())
+		if rn == nil || (rn.Obj().Name() != "partialDoc" && rn.Obj().Name() != "partialArray") {
+			continue
+		}
+		liveCtors = append(liveCtors, fn)
+		key := fmt.Sprintf("%s: the node for the container itself is built over the live container", fname(fn))
+		bad := ""
+		tot := 0
+		for _, r := range liveReturns(fn) {
+			v := retVal(r, 0)
+			if _, fr, ok := fieldLoad(v); ok && fr.Field == "self" {
+				bad = "returns the snapshot field self at " + b.posOf(r) + ": after an earlier operation changed the document, `copy` from \"\" duplicates the original input instead of the current document"
+				continue
+			}
+			ok, n := builtOver(v, fn.Params[0], 0)
+			if !ok {
+				bad = "the value returned at " + b.posOf(r) + " is not a node built over the receiver (the live container)"
+			}
+			tot += n
+		}
+		if bad == "" && tot == 0 {
+			bad = "no return builds a node over the receiver"
+		}
+		if bad != "" {
+			l.add("R-SELF", "v5", key, b.rel(fn.Pos()), Violated, bad, true)
+		} else {
+			l.add("R-SELF", "v5", key, b.rel(fn.Pos()), Discharged, "returns nil or a fresh node whose doc/ary field is the receiver itself", true)
+		}
+	}
+	isLive := map[*ssa.Function]bool{}
+	for _, f := range liveCtors {
+		isLive[f] = true
+	}
+	dcFn := b.roleFn("deepCopy")
+	nUse := 0
+	badUse := ""
+	for _, fn := range b.srcFuncs(b.Lib) {
+		allInstrs(fn, func(i ssa.Instruction) {
+			call, ok := i.(*ssa.Call)
+			if !ok {
+				return
+			}
+			hit := false
+			if f := call.Call.StaticCallee(); f != nil && isLive[f] {
+				hit = true
+			} else if call.Call.IsInvoke() {
+				for _, f := range b.callees(&call.Call) {
+					if isLive[f] {
+						hit = true
+					}
+				}
+			}
+			if !hit {
+				return
+			}
+			nUse++
+			var follow func(v ssa.Value, depth int)
+			follow = func(v ssa.Value, depth int) {
+				if depth > 4 {
+					badUse = "value flow too deep at " + b.posOf(call)
+					return
+				}
+				for _, r := range *v.Referrers() {
+					switch x := r.(type) {
+					case *ssa.DebugRef, *ssa.If:
+					case *ssa.BinOp:
+					case *ssa.Phi:
+						follow(x, depth+1)
+					case *ssa.FieldAddr:
+						// reading its fields
+						for _, r2 := range *x.Referrers() {
+							if st, ok := r2.(*ssa.Store); ok && st.Addr == ssa.Value(x) {
+								badUse = "the live-container node is written at " + b.posOf(st)
+							}
+						}
+					case *ssa.Call:
+						f := x.Call.StaticCallee()
+						switch {
+						case f != nil && f == dcFn:
+						case f != nil && f.Signature.Recv() != nil && len(x.Call.Args) > 0 && x.Call.Args[0] == v && (f.Name() == "equal" || f.Name() == "isNull"):
+						default:
+							badUse = fmt.Sprintf("%s passes the node for the live container to %s at %s: inserted, it would alias the container or make the document contain itself", fname(fn), calleeLabel(&x.Call), b.posOf(x))
+						}
+					default:
+						badUse = fmt.Sprintf("%s: the node for the live container escapes (%T at %s)", fname(fn), x, b.posOf(r))
+					}
+				}
+			}
+			follow(call, 0)
+		})
+	}
+	key2 := "the node for the live container is only deep-copied or compared, never inserted"
+	switch {
+	case badUse != "":
+		l.add("R-SELF", "v5", key2, "", Violated, badUse, true)
+	case nUse == 0:
+		l.add("R-SELF", "v5", key2, "", Discharged, "no call of a whole-container accessor", true)
+	default:
+		l.add("R-SELF", "v5", key2, "", Discharged, fmt.Sprintf("%d call(s) of a whole-container accessor; each result flows only into deepCopy, a comparison, or a nil test", nUse), true)
+	}
+	// (G4) the copy handler serves from == "" from such an accessor applied to the root
+	if ai := b.findApply(); ai != nil && ai.handlers["copy"] != nil && dcFn != nil {
+		fn := ai.handlers["copy"]
+		key := "copy: from == \"\" denotes the whole current document"
+		verdict, why := Violated, "no value flowing into deepCopy is the node of a whole-container accessor applied to the root: `copy from \"\"` does not copy the document"
+		for _, d := range callsTo(fn, func(cc *ssa.CallCommon) bool { return cc.StaticCallee() == dcFn }) {
+			var walk func(v ssa.Value, depth int)
+			walk = func(v ssa.Value, depth int) {
+				if depth > 3 {
+					return
+				}
+				switch x := v.(type) {
+				case *ssa.Phi:
+					for _, e := range x.Edges {
+						walk(e, depth+1)
+					}
+				case *ssa.Call:
+					if !isWholeDocCall(x) {
+						return
+					}
+					recv := callArgs(&x.Call)[0]
+					if u, ok := recv.(*ssa.UnOp); ok {
+						if p, ok := u.X.(*ssa.Parameter); ok && isNamed(derefPtr(p.Type()), "container") {
+							verdict, why = Discharged, "deepCopy receives "+calleeLabel(&x.Call)+" of the root slot"
+							// and only under from == ""
+							if !underEmptyStringTest(x.Block()) {
+								verdict, why = Violated, "the whole-document node is used on a path where from is not known to be \"\""
+							}
+						}
+					}
+				}
+			}
+			walk(d.Common().Args[0], 0)
+		}
+		l.add("R-SELF", "v5", key, b.rel(fn.Pos()), verdict, why, true)
 	}
 	// every container installed as the root has its self set (so that the empty token can denote it)
 	if ai := b.findApply(); ai != nil {
